@@ -308,9 +308,37 @@ def pts_round():
     return st.builds(mk, st.integers(0, 48), st.integers(0, 24), _unit, _unit, st.booleans(), st.booleans(), st.integers(0, 3))
 
 
+_AXES = {}
+
+
+def pts_face_axes():
+    """Points on and next to the rays of azimuth m*18 degrees in each face's own plane coordinates (x = 0, y = 0, the
+    seams at m*36 and the mid-triangle directions): where atan2-like formulas cancel and where polar and Cartesian forms
+    of the same point disagree first. Aimed with the library's own inverse projection (aiming only: a wrong aim tests a
+    different, equally legitimate point); sideways displacement 1e-13..1e-3 face units."""
+    def mk(face, m, ur, u, side, exact):
+        try:
+            if not _AXES:
+                from a5.projections.dodecahedron import DodecahedronProjection
+                from a5.core.coordinate_transforms import to_lonlat
+                _AXES.update(proj=DodecahedronProjection(), to_lonlat=to_lonlat)
+            a = math.radians(18 * m)
+            r = 0.6180339887498949 * (0.002 + 0.996 * ur)            # within the inscribed circle of the face pentagon
+            d = 0.0 if exact else (1 if side else -1) * 10.0 ** (-13 + 10 * u)
+            q = (r * math.cos(a) - d * math.sin(a), r * math.sin(a) + d * math.cos(a))
+            lon, lat = _AXES["to_lonlat"](_AXES["proj"].inverse(q, face))
+            if not (math.isfinite(lon) and math.isfinite(lat)):
+                raise ValueError
+            lon = math.remainder(lon, 360.0)
+        except Exception:  # noqa: BLE001 - aiming only
+            lon, lat = FRAME_LL[face][0], FRAME_LL[face][1]
+        return _pt(lon, lat, "face_axis")
+    return st.builds(mk, st.integers(0, 11), st.integers(0, 19), _unit, _unit, st.booleans(), st.booleans())
+
+
 def pts_base():
     return st.one_of(pts_uniform(), pts_polar(), pts_frame_nbhd(), pts_frame_nbhd(), pts_antimeridian(),
-                     pts_frame_exact(), pts_pole_exact(), pts_face_edge(), pts_face_edge(), pts_seam(), pts_round())
+                     pts_frame_exact(), pts_pole_exact(), pts_face_edge(), pts_face_edge(), pts_seam(), pts_round(), pts_face_axes())
 
 
 def pts_wrapped():
